@@ -618,6 +618,16 @@ func (p *pinner) isPinnedWithType(ctx context.Context, c cid.Cid, mode ipfspinne
 	case ipfspinner.Internal:
 		return "", false, nil
 	case ipfspinner.Indirect:
+		// A recursively pinned CID is not indirectly pinned, even when it is
+		// also reachable from another recursive pin: recursive takes
+		// precedence over indirect (same rule as checkIndirectPins).
+		has, err := p.cidRIndex.HasAny(ctx, cidKey)
+		if err != nil {
+			return "", false, err
+		}
+		if has {
+			return "", false, nil
+		}
 	case ipfspinner.Any:
 		has, err := p.cidRIndex.HasAny(ctx, cidKey)
 		if err != nil {
